@@ -12,6 +12,7 @@ CONSTANTS
   MaxRounds = 0
   ScenLen = 2
   MaxSignFail = 1
+  History = FALSE
   Matrix = TRUE
 INVARIANTS Emit
 CHECK_DEADLOCK FALSE
